@@ -8,7 +8,7 @@
 (* segmentation builder, a sequence of blocks.  A pattern descriptor says  *)
 (* how slots may change:                                                   *)
 (*   [kind |-> "choices", slots |-> Seq([const, choice])]                  *)
-(*   [kind |-> "array", h, w, choice, default, symmetry, adjacent, move]   *)
+(*   [kind |-> "array", h, w, choice, default, symmetry, adjacent, offsets, move] *)
 (*   [kind |-> "segmentation", h, w, bnd]                                  *)
 (* The loop: in every step the shuffled neighbours of the current problem  *)
 (* are tried: pretest -> solver -> (uniqueness -> return) | (score ->      *)
@@ -27,7 +27,12 @@ NeighbourChoices(pat, cur, nxt) ==
 
 (* ---- ArrayBuilder2D ---- *)
 Mirror(pat, c) == pat.h * pat.w - 1 - c                     \* point symmetry of cell number c
-AdjCell(pat, c, d) == AdjP(pat.w, c, d)
+(* the adjacency option is a list of offsets (True = the four orthogonal ones): setting cell c is refused while the *)
+(* cell at c + offset holds a non-default value                                                                      *)
+AdjCell(pat, c, d) ==
+    \E k \in DOMAIN pat.offsets :
+        LET y2 == (c \div pat.w) + pat.offsets[k][1]  x2 == (c % pat.w) + pat.offsets[k][2] IN
+        y2 \in 0 .. pat.h - 1 /\ x2 \in 0 .. pat.w - 1 /\ d = y2 * pat.w + x2
 NonDefault(pat, p) == {c \in 0 .. Len(p) - 1 : p[c + 1] # pat.default}
 Symmetric(pat, p)  == \A c \in 0 .. Len(p) - 1 : (c \in NonDefault(pat, p)) <=> (Mirror(pat, c) \in NonDefault(pat, p))
 SameMultiset(a, b) == \A v \in {a[i] : i \in DOMAIN a} \cup {b[i] : i \in DOMAIN b} :
